@@ -95,10 +95,12 @@ FNS = [("sum b", "SUM", True), ("count b", "COUNT", True), ("min b", "MIN", True
        ("lead 1 b", "LEAD", False), ("rank_dense b", "DENSE_RANK", False), ("row_number b", "ROW_NUMBER", False)]
 
 
-def run(ck, supports_table=None):
+def run(ck, supports_table=None, full=False):
     """supports_table: {prql fn name: bool} from the translator (what std.sql.prql says NOW); falls back to
     the table above (the unchanged tree) when the translator failed"""
     args = arg_sets(ck.thorough)
+    full = ck.thorough or full
+    rot = ck.seed
     cases = []
     for sorted_ in (True, False):
         for grouped in (False, True):
@@ -106,7 +108,11 @@ def run(ck, supports_table=None):
                 name = ftxt.split()[0]
                 if supports_table is not None and name in supports_table:
                     sup = supports_table[name]
-                for atxt, acoq in args:
+                for ai, (atxt, acoq) in enumerate(args):
+                    # quick tier: every argument set for one function of each class (frame clause / no frame clause /
+                    # ranking), every fourth -- rotating with the seed and the function -- for the other nine
+                    if not full and fsql not in ("SUM", "LAST_VALUE", "RANK") and (ai + rot + len(fsql)) % 4:
+                        continue
                     inner = ("sort a | " if sorted_ else "") + ("window %s (derive {x = %s})" % (atxt, ftxt) if atxt else "derive {x = %s}" % ftxt)
                     src = "from t | " + ("group g (%s)" % inner if grouped else inner) + " | select {x}"
                     cases.append({"src": src, "args": acoq, "sorted": sorted_, "grouped": grouped, "fn": fsql, "supports": sup, "atxt": atxt})
@@ -222,7 +228,7 @@ def run(ck, supports_table=None):
             ck.stat("frame-corr", "disagreement:empty-input")
             ck.disagreement("a window over a relation literal without rows does not run to an empty result: %s: %s" % (c["src"], json.dumps(x)[:200]),
                             {"src": c["src"], "sql": sql, "sqlite": x}, lambda _c: None)
-    ck.coverage["frame_corr_exhaustive"] = {"argument_sets": len(args), "cases": len(cases), "empty_input_cases": len(extra)}
+    ck.coverage["frame_corr_exhaustive"] = {"argument_sets": len(args), "cases": len(cases), "empty_input_cases": len(extra), "every_argument_set_for_every_function": bool(full)}
     return [c["src"] for c in cases]
 
 
